@@ -6,7 +6,7 @@ set -u
 cd "$(dirname "$0")/.."
 b=$1
 git rev-parse --verify -q "$b" >/dev/null || { echo "no such branch: $b"; exit 2; }
-git checkout -q -- evidence 2>/dev/null
+git checkout -q -- evidence MANIFEST.json 2>/dev/null
 if [ -n "$(git status --porcelain | grep -v '^??')" ]; then echo "working tree not clean:"; git status --short | grep -v '^??' | head; exit 2; fi
 out=$(git merge --no-edit "$b" 2>&1); rc=$?
 echo "$out" | grep -E "CONFLICT|Merge made|Already up to date|error|fatal" | head
@@ -19,4 +19,5 @@ done
 if git status --short | grep -qE "^(UU|AA|DU|UD)"; then echo "UNRESOLVED:"; git status --short | grep -E "^(UU|AA|DU|UD)"; exit 1; fi
 if [ $rc -ne 0 ]; then git commit -qm "Merge branch '$b'" || exit 1; fi
 python3 tools/gen_manifest.py >/dev/null 2>&1
+git add MANIFEST.json; git commit -qm "manifest regenerated after merging $b" 2>/dev/null
 echo "merged $b: $(git log --oneline -1 | cut -c1-60)"
